@@ -69,6 +69,98 @@ def enclosing_loops(func: ast.FunctionDef, node: ast.AST) -> list[ast.For]:
 
 
 # ---------------------------------------------------------------------------------------------
+def _self_calls(st: ast.AST) -> set[str]:
+    return {c.func.attr for c in walk_no_nested(st) if isinstance(c, ast.Call) and isinstance(c.func, ast.Attribute)
+            and dotted(c.func.value) == "self"}
+
+
+def _is_none_guard_return(func: ast.FunctionDef, node: ast.AST) -> bool:
+    """`return` (no value) directly inside an `if` whose test only compares things with None."""
+    if not (isinstance(node, ast.Return) and node.value is None):
+        return False
+    for st in walk_no_nested(func):
+        if isinstance(st, ast.If) and any(b is node for b in st.body) and not st.orelse:
+            cmps = [c for c in ast.walk(st.test) if isinstance(c, ast.Compare)]
+            return bool(cmps) and all(isinstance(c.ops[0], (ast.Is, ast.IsNot)) and isinstance(c.comparators[0], ast.Constant)
+                                      and c.comparators[0].value is None for c in cmps)
+    return False
+
+
+def _escapes(f: FuncInfo, start_nodes: list[int], refit: set[str]) -> bool:
+    """Is the normal exit reachable from the successors of `start_nodes` without passing a statement that calls a
+    re-fitting method (paths ending in a None-guard return do not count)?"""
+    from ..cfg import CFG
+
+    cfg = CFG(f.node)
+    blocked = {n.idx for n in cfg.nodes if n.ast is not None and n.kind == "stmt" and (
+        _self_calls(n.ast) & refit or _is_none_guard_return(f.node, n.ast))}
+    starts = start_nodes if start_nodes else [cfg.entry]
+    for s0 in starts:
+        src = cfg.entry if s0 is None else s0
+        if cfg.paths_avoiding(src, cfg.exit, blocked):
+            return True
+    return False
+
+
+def _refit(ctx, repo, line: ClassInfo) -> None:
+    from ..cfg import CFG
+
+    adj = line.own_method("_adjust_sampling")
+    ctx.require(adj is not None, "LineScan._adjust_sampling not found")
+    # fields the step depends on: attributes read by _adjust_sampling, through property getters of the class
+    fields: set[str] = set()
+    seen_props: set[str] = set()
+
+    def reads(fn: FuncInfo) -> None:
+        for n in walk_no_nested(fn.node):
+            if isinstance(n, ast.Attribute) and isinstance(n.ctx, ast.Load) and dotted(n.value) == "self":
+                if n.attr.startswith("_") and not n.attr.startswith("__"):
+                    if line.find_method(n.attr) is None:
+                        fields.add(n.attr)
+                elif n.attr not in seen_props:
+                    seen_props.add(n.attr)
+                    g = line.find_method(n.attr, "getter")
+                    if g is not None and g.is_property:
+                        reads(g)
+    reads(adj)
+    fields.discard("_sampling")
+    ctx.require({"_start", "_end", "_gpts"} <= fields,
+                f"LineScan._adjust_sampling: the step no longer depends on _start/_end/_gpts (found {sorted(fields)})")
+    # methods that re-fit on all (non-guard) paths
+    refit = {"_adjust_sampling"}
+    methods = [f for defs in line.methods.values() for f in defs if not (f.is_property and not f.is_setter)]
+    changed = True
+    while changed:
+        changed = False
+        for f in methods:
+            if f.name in refit or f.is_setter:
+                continue
+            if _self_calls(f.node) & refit and not _escapes(f, [], refit):
+                refit.add(f.name)
+                changed = True
+    n = 0
+    for f in methods:
+        cfg = CFG(f.node)
+        for node in cfg.nodes:
+            st = node.ast
+            if node.kind != "stmt" or not isinstance(st, (ast.Assign, ast.AugAssign)):
+                continue
+            tgts = st.targets if isinstance(st, ast.Assign) else [st.target]
+            hit = sorted({t.attr for t in tgts if isinstance(t, ast.Attribute) and dotted(t.value) == "self"
+                          and t.attr in fields})
+            if not hit or f is adj:
+                continue
+            n += 1
+            esc = not (_self_calls(st) & refit) and _escapes(f, [node.idx], refit)
+            ctx.check(not esc, "R-REFIT", f"{f.qualname}{'.setter' if f.is_setter else ''}:{'/'.join(hit)}", f.loc(st),
+                      f"store of {hit} is followed by a re-fit of the sampling ({sorted(refit)})",
+                      f"`{norm_text(st)[:60]}` changes {hit} and the method can return without re-fitting the sampling "
+                      f"(re-fitting methods: {sorted(refit)}): the reported sampling and the axis metadata keep the old "
+                      "step while get_positions() uses the new one", key_detail="refit")
+    ctx.require(n >= 5, f"R-REFIT examined only {n} stores of LineScan geometry fields")
+
+
+# ---------------------------------------------------------------------------------------------
 def run(ctx) -> None:
     repo = ctx.repo
     ctx.rule("R-LINSPACE", "every np.linspace call that generates scan coordinates in GridScan/LineScan is "
@@ -78,6 +170,11 @@ def run(ctx) -> None:
              "when the endpoint is included and extent/gpts otherwise with extent == ||end - start||; GridScan hands "
              "Grid extent == end - start component-wise and its own endpoint flags, and Grid's sampling formula is "
              "extent/(gpts-1) | extent/gpts")
+    ctx.rule("R-REFIT", "LineScan keeps its reported sampling equal to the linspace step through every mutation: each "
+             "method that stores one of the fields the step depends on (the fields _adjust_sampling reads through the "
+             "property getters: _start, _end, _gpts, _endpoint) reaches, on every path from the store to its normal "
+             "exit, a call that re-fits the sampling — _adjust_sampling itself or a method that calls it on all paths "
+             "except its `... is None: return` guards")
     ctx.rule("R-BLOCKTERM", "in _partition_args block k is described by start_k == start + cum_k*sampling(*direction), "
              "end_k - start_k == sampling*chunk_k(*direction), gpts == chunk_k, endpoint == False, where cum_k is the "
              "exclusive running sum of the very chunk sizes chunk_k iterates over and direction == (end-start)/||end-start||; "
@@ -95,6 +192,7 @@ def run(ctx) -> None:
     grid = repo.cls(SCAN, "GridScan")
     _linspace(ctx, repo, [line, grid])
     _sampling(ctx, repo, line, grid)
+    _refit(ctx, repo, line)
     _blocks(ctx, repo, line, grid)
     _scan_axes(ctx, repo, line, grid)
     _kernel(ctx, repo)
